@@ -246,6 +246,7 @@ def run_phase(run, P):
 
 def run_cap(run, P):
     run.rule('R-STREAM-CAP')
+    _signed_rep = set()
     for fname, (kind, what) in sorted(CAP_SOURCES.items()):
         if not P.has(fname):
             if run.fixture_mode:
@@ -338,6 +339,22 @@ def run_cap(run, P):
             if exceed:
                 e2.ts['exceed'] = term.get('loc')
             else:
+                # a cap made as a SIGNED comparison lets through every declared length whose top bit is set (a 64-bit WebSocket length of
+                # 2^63 and more is negative as ssize_t): the non-exceeding arm only caps when the declared value is compared as unsigned
+                # or is known non-negative on this path
+                tn = c['l'] if tv == l else c['r']          # NOT stripped: the cast the comparison sees decides its signedness
+                while isinstance(tn, dict) and tn.get('k') == 'paren':
+                    tn = tn.get('e')
+                signed_cmp = isinstance(tn, dict) and tn.get('s') == 1
+                lo = e.intf(tv)[0]
+                if signed_cmp and not (lo >= 0):
+                    if (fname, term.get('loc')) not in _signed_rep:
+                        _signed_rep.add((fname, term.get('loc')))
+                        run.oblige('R-STREAM-CAP', False, '%s:cap-is-unsigned' % fname)
+                        run.violation('R-STREAM-CAP', fname, term.get('loc') or f['loc'], 'signed-cap-comparison',
+                                      'the declared length is compared with the maximum as a SIGNED value and is not known non-negative: a declared length with the top bit set '
+                                      'is negative here, passes as "not too big", the session is not closed and the reader waits for (or copies) an absurd amount', ctx.path())
+                    return e
                 e2.ts['capped'] = 1
             return e2
 
